@@ -31,6 +31,8 @@ RULE = (
     "Non-trivial = >= 2 blocks or a merged/padded leaf, and a preconditioner step "
     "at/after the graft start step; distinct = hash of the case.")
 ASSUMPTIONS = [
+    "linearity in the learning rate is checked to 4 ulp of the update's max-abs (XLA contracts "
+    "multiply-adds differently when the factor is exactly 1)",
     "Shampoo: float64 end to end (x64), updates compared at 1e-7 of max-abs, "
     "statistics at 1e-8, roots at 1e-6; a block whose covariance has an eigenvalue "
     "within 1e-9 (relative to the largest) of the documented 1e-6 cut makes the "
@@ -433,9 +435,12 @@ def check(case):
     outs2, states2 = run_real(o, params, hist, dtype, lr_scale=2.0)
     for c in range(len(hist)):
       for n in names:
-        require(np.array_equal(np.asarray(outs2[c][n]), 2.0 * np.asarray(outs[c][n])), "linear-in-learning-rate",
-                f"step {c} {n}: doubling the learning rate does not exactly double the update "
-                f"(max dev {np.max(np.abs(np.asarray(outs2[c][n]) - 2.0 * np.asarray(outs[c][n]))):.3g})")
+        a2, a1 = np.asarray(outs2[c][n], np.float64), 2.0 * np.asarray(outs[c][n], np.float64)
+        ulp = (2.0 ** -52 if shampoo else 2.0 ** -23) * max(float(np.max(np.abs(a1), initial=0.0)), 1e-300)
+        # linear up to the compiler's freedom to contract multiply-adds differently for lr = 1 (a plain negation)
+        require(float(np.max(np.abs(a2 - a1), initial=0.0)) <= 4 * ulp, "linear-in-learning-rate",
+                f"step {c} {n}: doubling the learning rate does not double the update "
+                f"(max dev {np.max(np.abs(a2 - a1)):.3g}, 4 ulp = {4 * ulp:.3g})")
   elif case["twin"] == "merged" and o["graft"] in ("none", "sgd", "rmsprop") and not any(masked):
     o2 = dict(o, skip_rank1=False, skip_gt=4096)
     mshapes = [tuple(merge_dims(s, o["merge"])) for s in shapes]
